@@ -13,7 +13,7 @@ CHECKS = {
          "Bounded: 4 sender messages, depth 6/8, 3/4 deviations; acceptance oracle is the abstract provenance model; payload bytes from a fixed pattern."),
  "C06": ("model_checking", "E1 fault product + E2 seqmc with RecordingCipher / ScriptedRng seams",
          "exhaustive fault-point enumeration and explicit-state BFS over call sequences, invariant evaluated on the merged Cipher::encrypt log and RNG log of both endpoints",
-         "For every handshake name (556) every single failing call (and pairs on base patterns) along the honest run, plus BFS over scattered failures, conversion, transport and rekeys: no (key, nonce) maps to two different (ad, plaintext); every `e` is the public key of bytes drawn during that very write.",
+         "For every handshake name (556) every single failing call (and pairs on base patterns) along the honest run, plus BFS over scattered failures, conversion, transport and rekeys: no (key, nonce) maps to two different (ad, plaintext); every `e` is the public key of bytes drawn during that very write; with the built-in random sources (default, ring over default) no two ephemerals coincide across sessions, roles, names and backends.",
          "Observer sits in the resolver (Builder::with_resolver); ScriptedRng mode only; caller-chosen nonces/keys (stateless mode, manual rekey to equal keys, the sending-nonce hook) are outside the alphabet."),
  "C07": ("fault_enumeration", "E1 fault product (differential) + E2 seqmc",
          "exhaustive enumeration of failure points and causes along the honest run (deviation bound 1, 2 on base patterns) with a differential oracle against the run without the failing calls; explicit-state BFS for scattered failures",
@@ -33,10 +33,10 @@ CHECKS = {
          "Transport reference is keyed with the keys the implementation installed at Split() (seen by the RecordingCipher) so that the verdict is independent of handshake conformance (C01)."),
  "C02": ("model_checking", "E1 product (executor, abstract model)",
          "exhaustive enumeration of all 13 344 protocol names (keys from the library's own generate_keypair under scripted RNG streams, scripted-RNG ephemerals) plus bounded products of payload lengths, transport modes and every direction string of length <= 5",
-         "Every honest session completes after exactly #messages messages on both sides, every handshake and transport payload is returned intact, both sides report the same handshake hash and every ephemeral is drawn during its write - for every name, 4 transport modes, payload lengths 0..max per message index (covering subset), all 62 direction strings.",
+         "Every honest session completes after exactly #messages messages on both sides, every handshake and transport payload is returned intact, both sides report the same handshake hash and every ephemeral is drawn during its write - for every name, 4 transport modes, payload lengths 0..max per message index (covering subset), all 62 direction strings; PSKs supplied only through set_psk, or replaced through it.",
          "OS randomness is a seam answer and is not enumerated (one labelled sample run per base pattern); hfs/Kyber names only in the hfs build; Curve448 has no resolver."),
  "C03": ("fault_enumeration", "E1 fault product (executor + reference field map)",
-         "exhaustive enumeration of single alterations (every bit / one bit per byte, every truncation, extensions, substitutions) of every handshake message, then pairs; oracle from the reference field map",
+         "exhaustive enumeration of single alterations (every bit / one bit per byte, every truncation, extensions, substitutions, a P-256 key sent in the clear replaced by its negated point) of every handshake message, then pairs; oracle from the reference field map",
          "For every handshake name and message: no alteration lets both parties finish without an error, and an alteration that touches a field the reference field map marks encrypted (or changes the length of an encrypted tail) is rejected by the receiving read itself; also after an earlier altered copy was rejected, and with two altered messages.",
          "A complete first message of a parallel session is a valid message (Noise has no replay protection for it): exempt from clause (b), and from (a) for one-way patterns; random multi-byte edits are replaced by the exhaustive single-bit/truncation/substitution alphabets."),
  "C04": ("fault_enumeration", "E1 product (executor, provenance model)",
@@ -44,7 +44,7 @@ CHECKS = {
          "A transport read returns Ok iff the delivered bytes are the unaltered message the peer wrote for this session, direction, key and nonce (then exactly the payload); 2 million deliveries over 38 patterns + psk variants x 3 ciphers x 2 backends x both modes in the quick tier. When /repo/src contains a synchronisation primitive, concurrent reads are also explored on the shuttle-mapped copy (every interleaving at those primitives).",
          "Acceptance oracle is the crypto-free provenance model; random 64-bit nonces replaced by boundary + all single-bit values."),
  "C08": ("model_checking", "E1 product (executor as driver)",
-         "exhaustive enumeration of single context differences between the two peers (name string, hash/cipher component, every prologue bit/length, every psk bit, a psk replaced through set_psk after building, pre-shared static keys incl. related keys) for every name (quick: covering subset), the same differences in sessions whose every handshake step is first attempted wrongly and then repeated, pairs in thorough",
+         "exhaustive enumeration of single context differences between the two peers (name string, another spelling of the same modifiers parsed by one side - other order, leading zero -, hash/cipher component, every prologue bit/length, every psk bit, a psk replaced through set_psk after building, pre-shared static keys incl. related keys) for every name (quick: covering subset), the same differences in sessions whose every handshake step is first attempted wrongly and then repeated, pairs in thorough",
          "Peers that differ in the protocol name, prologue, any PSK or any pre-shared static key never both complete the handshake without an error and never accept each other's transport messages; the equal configuration is run as a control.",
          "Names differing only by trailing NULs from a name shorter than HASHLEN are indistinguishable by the specification's padding and excluded."),
  "C10": ("fault_enumeration", "E1 sweep with catch_unwind at the call boundary + watchdog",
@@ -61,7 +61,7 @@ CHECKS = {
          "Declared don't-care set: psk numbers with leading zeros. hfs names only in the hfs build (./check C13@hfs)."),
  "C14": ("model_checking", "E1 product (executor + reference field map, canary buffers)",
          "exhaustive enumeration of payload lengths near both limits x buffer lengths around the predicted length for every message of every handshake name, every truncation length on reads, transport likewise",
-         "A successful write returns exactly the predicted length, never more than 65535 nor than the buffer, bytes beyond it untouched; a write that cannot fit fails with Error::Input; reads of >65535 bytes or fewer than the fixed fields fail; a successful read returns length minus overhead.",
+         "A successful write returns exactly the predicted length, never more than 65535 nor than the buffer; a write that cannot fit fails with Error::Input; reads of >65535 bytes (garbage, and authentic messages sealed with the reference AEAD under the session key) or fewer than the fixed fields fail; a successful read returns length minus overhead whatever spare room the buffer has, on both backends.",
          "Success with an exactly fitting buffer is not demanded (snow's 16 spare bytes rule for clear payloads is accepted either way)."),
  "C16": ("model_checking", "E1 (executor) + E3 shuttle::check_dfs at cipher-call seams, and on a shuttle-mapped copy of /repo/src when snow contains sync primitives; + labelled free-running sample",
          "exhaustive enumeration of call orders/repetitions and of every interleaving (shuttle depth-first search, no sampling) of the pre-cipher/cipher/post-cipher segments of concurrent stateless calls on a shared state; differential against the stateful sender",
@@ -73,7 +73,7 @@ CHECKS = {
          "The peer's true key is computed by ring from its private key; a key supplied although the pattern transmits it is shown until the transmitted one has been read."),
  "C18": ("model_checking", "E1 product over the resolver objects vs independent implementations",
          "exhaustive enumeration of lengths (HMAC keys 0..=block x data 0..=3 blocks+1, hash lengths, ad/plaintext grids) and structured key/nonce/scalar/point alphabets, each output compared with ring / hmac / hkdf / hand-written HChaCha20",
-         "440 000 primitive calls on DefaultResolver and RingResolver objects: hashes, HMAC, HKDF, AEAD (incl. round trip, rejection of every bit flip / truncation / wrong nonce, ad, key; rekey), X25519 and P-256 (incl. low-order, non-canonical, twist and invalid points; generated key pairs) equal their standards.",
+         "440 000 primitive calls on DefaultResolver and RingResolver objects: hashes, HMAC, HKDF, AEAD (incl. round trip, rejection of every bit flip / truncation / wrong nonce, ad, key; rekey), X25519 and P-256 (incl. low-order, non-canonical, twist and invalid points; generated key pairs) equal their standards; the random sources of DefaultResolver / RingResolver really fill every buffer length through fill_bytes and try_fill_bytes, and key pairs generated from them are consistent and distinct.",
          "Value spaces are closed by alphabets; BLAKE2 digests have no second implementation offline (KATs + cacophony)."),
  "C19": ("fault_enumeration", "E1 product (executor with retained error buffers)",
          "exhaustive enumeration of tag/body bit positions x output buffer sizes x read paths x ciphers x backends; canary-filled buffers searched for plaintext windows after Err",
@@ -81,11 +81,11 @@ CHECKS = {
          "Plaintexts shorter than 4 bytes are not judged (chance matches)."),
  "C20": ("model_checking", "E1 complete (differential across backend assignments) + fallback truth table",
          "complete enumeration of the 9 backend assignments for every name both backends serve (and fallback-only names), differential against the all-default session; complete truth table of FallbackResolver over tagged stub resolvers with nesting",
-         "All assignments of {Default, Ring+Default, Default+Ring} produce byte-identical sessions (handshake, transport, after synchronised rekeys) and interoperate; FallbackResolver yields a primitive iff a member provides it and always the first member's.",
+         "All assignments of {Default, Ring+Default, Default+Ring} produce byte-identical sessions (handshake, transport, after synchronised rekeys), interoperate, and every read returns what it returns in the all-default session (also with exactly sized and in-between output buffers); FallbackResolver yields a primitive iff a member provides it and always the first member's.",
          "Inputs as in C01's default vector."),
  "C01": ("model_checking", "E1 product + refnoise",
          "exhaustive enumeration of all 13 344 protocol names x deviation-bounded input variations; every step of the real session executed in lock step with an independent reference model bound to third-party vectors",
-         "Every handshake/transport message, handshake hash and payload-encrypted flag snow produces for every supported protocol name (both roles, fixed and scripted-RNG ephemerals, stateful/stateless, after a failed call) is compared byte for byte with refnoise; complete over names, bounded (alphabets) over key/prologue/payload values and lengths.",
+         "Every handshake/transport message, handshake hash and payload-encrypted flag snow produces for every supported protocol name (both roles, fixed and scripted-RNG ephemerals, stateful/stateless, after a failed call, names that spell their psk modifiers in another order, rekeys, out-of-order delivery through set_receiving_nonce) is compared byte for byte with refnoise; an explicit-state BFS per base pattern covers unusual call orders; complete over names, bounded (alphabets) over key/prologue/payload values and lengths.",
          "refnoise (own code) is trusted as the specification after reproducing 472 cacophony vectors and the standard KATs at the start of every run; BLAKE2 shares snow's implementation; Curve448 not covered; byte values outside the alphabets not explored."),
 }
 
